@@ -737,6 +737,7 @@ namespace
       case DW_AT_return_addr:
       case DW_AT_segment:
       case DW_AT_static_link:
+      case DW_AT_string_length:
       case DW_AT_use_location:
       case DW_AT_vtable_elem_location:
 	return std::make_unique <locexpr_producer> (dwctx, attr);
